@@ -186,16 +186,31 @@ def neuber_inverse(o):
     o.safety_exempt = ['divisor != 0', 'power']
     o.skip_kinds = {'deriv'}
     kind = 'series'
-    ps = o.paths(lambda: call(o, law, 'stress', SV(L, kind=kind)))
-    rets = [p for p in ps if p.kind == 'return']
-    o.prove('stress returns on the three sign cases of the iterate', z3.BoolVal(len(rets) == 3))
-    for i, p in enumerate(rets):
-        x = p.result.t
-        tag = ['iterate>0', 'iterate<0', 'iterate=0'][i] if len(rets) == 3 else str(i)
-        if i < 2:
-            o.prove(f'[{tag}] root of func  =>  sigma eps(sigma) == L K_p eps(L/K_p)', g_of(E, K, n, x) == T_of(E, K, n, Kp, L), under=p.pc, pairs=False)
-        else:
-            o.prove(f'[{tag}] the iterate 0 is never a root for L > 0', z3.BoolVal(False), under=p.pc, pairs=False)
+
+    def g2_of(x):
+        return x * (2 * eps(E, K, n, x / 2))
+
+    def T2_of(x):
+        return x * Kp * (2 * eps(E, K, n, x / Kp / 2))
+    # (function, equation the newton root x has to satisfy for the given argument L): forward functions solve for the stress, backward functions for the load;
+    # the secondary branch uses the Masing-doubled curve on both sides (added after seed C06-b handed the primary function to the secondary backward solver)
+    cases = [('stress', lambda x: g_of(E, K, n, x) == T_of(E, K, n, Kp, L), 'sigma eps(sigma) == L K_p eps(L/K_p)'),
+             ('stress_secondary_branch', lambda x: g2_of(x) == T2_of(L), 'dsigma deps(dsigma) == dL K_p de*(dL) (Masing-doubled)'),
+             ('load', lambda x: g_of(E, K, n, L) == T_of(E, K, n, Kp, x), 'sigma eps(sigma) == x K_p eps(x/K_p) for the given stress sigma'),
+             ('load_secondary_branch', lambda x: g2_of(L) == T2_of(x), 'dsigma deps(dsigma) == x K_p de*(x) (Masing-doubled) for the given stress range')]
+    for fname, eqn, text in cases:
+        ps = o.paths(lambda: call(o, law, fname, SV(L, kind=kind)))
+        rets = [p for p in ps if p.kind == 'return']
+        pre = '' if fname == 'stress' else f'{fname}: '
+        o.prove(f'{fname} returns on the three sign cases of the iterate' if fname != 'stress' else 'stress returns on the three sign cases of the iterate', z3.BoolVal(len(rets) == 3))
+        for i, p in enumerate(rets):
+            x = p.result.t
+            tag = ['iterate>0', 'iterate<0', 'iterate=0'][i] if len(rets) == 3 else str(i)
+            if i < 2:
+                label = f'[{tag}] root of func  =>  sigma eps(sigma) == L K_p eps(L/K_p)' if fname == 'stress' else f'{pre}[{tag}] root of func  =>  {text}'
+                o.prove(label, eqn(x), under=p.pc, pairs=False)
+            else:
+                o.prove(f'{pre}[{tag}] the iterate 0 is never a root for L > 0', z3.BoolVal(False), under=p.pc, pairs=False)
     o.note("magnitude bracket L/K_p <= |stress| <= L and |load(stress(L))| = L follow from this equation with the bracket and the two monotonicity lemmas of "
            "neuber.bracket-monotone (g even, strictly increasing on sigma > 0): meta-step, checked numerically by the bounded stand-in")
 
